@@ -72,19 +72,19 @@ class Facts:
             elif k == 'run_tasks-left':
                 self.left_idx = i
         self.executed = sorted(self.begins)
-        self.loaded = sorted({key_node[k] for k in self.read_opens if k in key_node})
+        # a load = the coordinator handing the task to the runner with use_cache=True
+        # (public Runner seam); is_cached probes may read storage too and do not count
+        self.load_submits: dict[int, int] = {}
+        for _i, n, uc in self.submits:
+            if uc:
+                self.load_submits[n] = self.load_submits.get(n, 0) + 1
+        self.loaded = sorted(self.load_submits)
 
     def load_count(self, node: int) -> int:
-        key = self.out.keys.get(node)
-        opens = self.read_opens.get(key, [])
-        if not opens:
-            return 0
-        # a load opens each file of the entry once: count by file name
-        per_file: dict[str, int] = {}
-        for i in opens:
-            fn = self.ev[i][3]
-            per_file[fn] = per_file.get(fn, 0) + 1
-        return max(per_file.values())
+        return self.load_submits.get(node, 0)
+
+    def submit_count(self, node: int) -> int:
+        return sum(1 for _i, n, _uc in self.submits if n == node)
 
     def last_load_idx(self, node: int) -> Optional[int]:
         key = self.out.keys.get(node)
@@ -231,6 +231,9 @@ def check_C03(sc: dict, out, facts: Facts, strict_plan: bool = True) -> list[dic
             vs.append(V('C03', 'loaded-twice', f'node {n} was loaded {c} times'))
         if n in facts.begins:
             vs.append(V('C03', 'executed-and-loaded', f'node {n} was both executed and loaded'))
+    for n in ref.nodes:
+        if facts.submit_count(n) > 1:
+            vs.append(V('C03', 'submitted-twice', f'node {n} was handed to the runner {facts.submit_count(n)} times'))
     execute, load = expected_plan(sc, ref)
     if strict_plan:
         if facts.executed != execute:
